@@ -143,11 +143,30 @@ CORPUS = [
 ]
 
 
+# (text, parameters): the same subquery text twice with different parameters; FROM-less subqueries scan the table of the
+# statement they are nested in, which is a FROM-subquery here (scanned by the outer statement at the same time)
+PARAM_CORPUS = [
+    ('SELECT i, i IN (SELECT i FROM #u WHERE i > %s) AS a, i IN (SELECT i FROM #u WHERE i > %s) AS b FROM #t', (1, 6)),
+    ('SELECT i FROM #t WHERE i IN (SELECT i FROM #u WHERE i < %s) OR i IN (SELECT i FROM #u WHERE i < %s)', (2, 4)),
+    ('SELECT a, b FROM (SELECT s AS a, i AS b FROM #t) WHERE b IN (SELECT max(b))', None),
+    ('SELECT a, b FROM (SELECT s AS a, i AS b FROM #t) WHERE b NOT IN (SELECT max(b))', None),
+    ('SELECT a, b IN (SELECT min(b)) AS first FROM (SELECT s AS a, i AS b FROM #t)', None),
+    ('SELECT i FROM (SELECT i, s FROM #t WHERE i NOT IN (SELECT max(i))) WHERE i IN (SELECT max(i))', None),
+    ('SELECT b FROM (SELECT i AS b FROM #t WHERE i > 1) WHERE b IN (SELECT b) AND b NOT IN (SELECT min(b))', None),
+]
+
+
 def corpus_layer(ctx):
     t = impl.HTable('t', [('i', int), ('s', str), ('t', str)], [(1, 'a', 'x'), (2, 'b', 'y'), (3, 'c', 'x'), (4, 'a', 'z'), (5, 'd', 'y')])
     u = impl.HTable('u', [('i', int), ('s', str)], [(1, 'a'), (9, 'b'), (5, 'c'), (7, 'd'), (3, 'e')])
     for text in CORPUS:
         case = SqlCase([t, u], text, name='corpus')
+        case.check(ctx)
+        if not case.run_impl().startswith('OK'):
+            raise RuntimeError('corpus statement is not accepted: %s' % text)
+        ctx.count('corpus')
+    for text, params in PARAM_CORPUS:
+        case = SqlCase([t, u], text, list(params) if params else None, name='corpus')
         case.check(ctx)
         if not case.run_impl().startswith('OK'):
             raise RuntimeError('corpus statement is not accepted: %s' % text)
